@@ -749,7 +749,14 @@ def apply_image_normalization(
         low = observation_space.low
         high = observation_space.high
 
-    return (observation - low) / (high - low)
+    # A pixel whose bounds coincide can only take that one value: it maps to 0 instead of 0 / 0
+    scale = high - low
+    if isinstance(scale, torch.Tensor):
+        scale = torch.where(scale == 0, torch.ones_like(scale), scale)
+    else:
+        scale = np.where(scale == 0, np.ones_like(scale), scale)
+
+    return (observation - low) / scale
 
 
 # TODO: The following functions are currently used in PPO (on-policy) as a means of handling
